@@ -119,6 +119,30 @@ class TextGen:
             self.add(it, position="struct-tag", cls=cls, text=s)
             it = self.mk("enum", variants=[Variant("A", "struct", [Field("f", prim("i32"), rename=s)])])
             self.add(it, position="variant-field-rename", cls=cls, text=s)
+        # attributes that are none of the derive's business, at every place it reads attributes
+        for cls, a in (("doc-hidden", "#[doc(hidden)]"), ("doc-alias", '#[doc(alias = "other_name")]'), ("allow", "#[allow(dead_code)]"),
+                       ("cfg_attr", "#[cfg_attr(all(), allow(unused))]"), ("doc-cfg_attr", '#[cfg_attr(all(), doc = " conditional docs")]'),
+                       ("must_use", "#[must_use]"), ("non_exhaustive", "#[non_exhaustive]")):
+            container_ok = True
+            field_ok = cls not in ("must_use", "non_exhaustive")
+            if container_ok:
+                it = self.mk("named", extra_attrs=[a], fields=[Field("a", prim("i32"))])
+                self.add(it, position="bystander-attr-container", cls=cls, text=a)
+                it = self.mk("enum", extra_attrs=[a], variants=[Variant("A", "unit"), Variant("B", "newtype", [Field(None, prim("i32"))])])
+                self.add(it, position="bystander-attr-container", cls=cls, text=a)
+            if field_ok:
+                it = self.mk("named", fields=[Field("a", prim("i32"), extra_attrs=[a]), Field("b", prim("bool"))])
+                self.add(it, position="bystander-attr-field", cls=cls, text=a)
+                it = self.mk("tuple", fields=[Field(None, prim("i32"), extra_attrs=[a]), Field(None, prim("bool"))])
+                self.add(it, position="bystander-attr-field", cls=cls, text=a)
+                it = self.mk("newtype", fields=[Field(None, prim("i32"), extra_attrs=[a])])
+                self.add(it, position="bystander-attr-field", cls=cls, text=a)
+                it = self.mk("enum", variants=[Variant("A", "struct", [Field("f", prim("i32"), extra_attrs=[a])]),
+                                               Variant("B", "tuple", [Field(None, prim("i32"), extra_attrs=[a]), Field(None, prim("u8"))])])
+                self.add(it, position="bystander-attr-variant-field", cls=cls, text=a)
+            if cls not in ("must_use",):
+                it = self.mk("enum", variants=[Variant("A", "unit", extra_attrs=[a]), Variant("B", "struct", [Field("f", prim("i32"))], extra_attrs=[a])])
+                self.add(it, position="bystander-attr-variant", cls=cls, text=a)
         for ident in FIELD_IDENTS:
             it = self.mk("named", fields=[Field(ident, prim("i32")), Field("other", prim("bool"))])
             self.add(it, position="field-ident", cls="ident", text=ident)
